@@ -152,12 +152,17 @@ def numeric(ctx):
         si = compute.SIFrameComputer(bank, frame_shift_ms=rng.choice([2.5, 5.0]), include_energy=rng.random() < 0.5)
         w = pst.PyTorchSIFrameComputer.from_si_frame_computer(si)
         for dt in (np.float64, np.float32):
-            x = nprng.randn(rng.choice([0, 10, 300, 1000])).astype(dt)
+            x = (nprng.randn(rng.choice([0, 10, 300, 1000])) * rng.choice([1.0, 100.0]) + rng.choice([0.0, 0.0, 1e4])).astype(dt)
             ra = si.compute_full(x)
             rb = w(torch.from_numpy(x)).numpy()
             ctx.count("siwrap")
-            if ra.shape != rb.shape or not np.allclose(ra, rb, rtol=1e-5, atol=1e-6):
-                bad.append(dict(what="PyTorchSIFrameComputer differs", N=len(x), dtype=str(np.dtype(dt))))
+            # the wrapper hands the signal to the NumPy computer: in the signal's own precision the two agree to the last
+            # few bits (a detour through a narrower type would show as ~1e-7 on float64 input)
+            tol = 1e-12 if dt == np.float64 else 1e-6
+            if ra.shape != rb.shape or rb.dtype != ra.dtype or not np.allclose(ra, rb, rtol=tol, atol=tol):
+                bad.append(dict(what="PyTorchSIFrameComputer differs from SIFrameComputer.compute_full", N=len(x), dtype=str(np.dtype(dt)),
+                                max_abs_diff=(float(np.max(np.abs(ra - rb))) if ra.shape == rb.shape and ra.size else None),
+                                result_dtype=str(rb.dtype), expected_dtype=str(ra.dtype)))
     # dither: reproducible under manual_seed, zero mean, requested std
     # in every module state a front end is used in: fresh (training mode), after .eval(), as a child of a
     # container put in evaluation mode, back in training mode, TorchScript-compiled (both modes)
